@@ -182,12 +182,62 @@ impl Property for C02 {
 // --------------------------------------------------------------------------------------------
 pub struct C03;
 
+/// The same JSX expression evaluated twice (the call child returns a different value each time),
+/// slots rendered only after both evaluations: each vnode's `default` slot must deliver the value
+/// of *its* evaluation.
+fn reevaluation_case(c: &mut Choices) -> Case {
+    let ctx = c.pick(8);
+    let object_slots = c.chance(3, 4);
+    let optimize = c.bool();
+    reevaluation_fixed(ctx, object_slots, optimize)
+}
+
+fn reevaluation_fixed(ctx: usize, object_slots: bool, optimize: bool) -> Case {
+    // 0-3: the temporary belongs to one evaluation; 4-7: it is shared (known finding D52)
+    let (tpl, shared): (&str, bool) = match ctx {
+        0 => ("export const thunk0 = () => @H@;", false),
+        1 => ("export function thunk0() {\n  return @H@;\n}", false),
+        2 => ("export const thunk0 = () => {\n  const r = @H@;\n  return [r];\n};", false),
+        3 => ("export const thunk0 = () => {\n  const out = [];\n  for (const i of [1, 2]) {\n    out.push(@H@);\n  }\n  return out;\n};", false),
+        4 => ("export const thunk0 = (a = @H@) => a;", true),
+        5 => ("export function thunk0(a = @H@) {\n  return a;\n}", true),
+        6 => ("class K {\n  f = @H@;\n}\nexport const thunk0 = () => new K().f;", true),
+        _ => ("export const thunk0 = () => {\n  const out = [];\n  for (const i of [1, 2]) out.push(@H@);\n  return out;\n};", true),
+    };
+    let jsx = "<C1 id=\"re\">{seq1()}</C1>";
+    let reference = "R.el(CFG, R.tag.val(C1), [[\"s\", \"id\", \"re\"]], { shape: \"call\", thunk: () => [[\"e\", seq1()]] })";
+    let head = "import { C1, seq1 } from \"env\";\n";
+    let main = format!("{head}{}\n", tpl.replace("@H@", jsx));
+    let cfg = format!(
+        "const CFG = {{ wsOnlyDrop: false, vslotsWrap: true, mergeProps: true, transformOn: false, objectSlots: {object_slots}, factory: null }};"
+    );
+    let refm = format!("{head}import {{ R }} from \"ref\";\n{cfg}\n{}\n", tpl.replace("@H@", reference));
+    let opts = Opts {
+        enable_object_slots: object_slots,
+        optimize,
+        ..Opts::default()
+    };
+    let mut case = Case::new(main, "jsx", Some(opts.json()));
+    case.extra = json!({
+        "kind": "re-evaluation",
+        "shared_temporary": shared && object_slots,
+        "env": {"bound": {"C1": {"k": "comp", "id": "C1"}, "seq1": {"k": "seqfn", "id": "seq1"}}, "globals": {}},
+        "refs": [refm],
+        "protocol": {"callThunks": true, "callThunksTwice": true},
+    });
+    case.label(if shared { "re-evaluation=shared-temporary-context" } else { "re-evaluation=own-temporary" });
+    case.label(format!("re-evaluation-context={ctx}"));
+    case.label(opts.label());
+    case.nontrivial = true;
+    case
+}
+
 impl Property for C03 {
     fn id(&self) -> &'static str {
         "C03"
     }
     fn rule(&self) -> String {
-        "component hosts (bound / unbound / member) x child shapes {none, bound ident, unbound ident, call, arrow, function expression, object literal, text, element, mixed, spread child, member, conditional, literal} x run-time value kind of the identifier / call result {str, num, bool, null, undefined, array, slots object, vnode, function, plain object} x v-slots {absent, identifier, object literal} x enableObjectSlots x optimize x nesting (slots inside slots, JSX in attribute values). Oracle: reference lowering with the statement's run-time rule; every slot function invoked by the canoniser and its result compared in order; creation and slot traces compared (a call child is evaluated exactly once). non-trivial = component host with children or v-slots; distinct by hash(source, options, env)".into()
+        "component hosts (bound / unbound / member) x child shapes {none, bound ident, unbound ident, call, arrow, function expression, object literal, text, element, mixed, spread child, member, conditional, literal} x run-time value kind of the identifier / call result {str, num, bool, null, undefined, array, slots object, vnode, function, plain object} x v-slots {absent, identifier, object literal} x enableObjectSlots x optimize x nesting (slots inside slots, JSX in attribute values); plus re-evaluation cases: a component with a call child whose value differs per call, evaluated twice in 8 contexts (arrow / function / block body / braced loop body: temporary of its own; parameter default of arrow and function, class field, loop body without braces: shared temporary = known finding D52), slots rendered only after both evaluations. Oracle: reference lowering with the statement's run-time rule; every slot function invoked by the canoniser and its result compared in order; creation and slot traces compared (a call child is evaluated exactly once). non-trivial = component host with children or v-slots; distinct by hash(source, options, env)".into()
     }
     fn assumptions(&self) -> Vec<String> {
         vec![
@@ -208,6 +258,9 @@ impl Property for C03 {
         true
     }
     fn generate(&self, c: &mut Choices) -> Case {
+        if c.chance(1, 12) {
+            return reevaluation_case(c);
+        }
         let cfg = SemCfg {
             component_weight: 8,
             vslots: true,
@@ -288,10 +341,36 @@ impl Property for C03 {
         case
     }
     fn check(&self, case: &Case, ctx: &mut Ctx) -> Verdict {
+        if case.extra["kind"] == "re-evaluation" {
+            let v = judge_semantic_for(case, ctx, "C03");
+            // D52: where the temporary of a call child is shared by several evaluations (parameter
+            // default, class field, loop body without a block) every default slot returns the last
+            // value; the contexts with a temporary of their own must hold
+            if case.extra["shared_temporary"] == true {
+                return match v {
+                    // exactly the listed failure: a slot of an earlier evaluation returns the
+                    // value of a later one (`seq1#1` expected, `seq1#2..` observed)
+                    Verdict::Violation { ref detail, .. }
+                        if ctx.findings.known("D52", "C03")
+                            && detail["expected_there"].as_str().map(|s| s.starts_with("seq1#")).unwrap_or(false)
+                            && detail["observed_there"].as_str().map(|s| s.starts_with("seq1#")).unwrap_or(false) =>
+                    {
+                        Verdict::Known("D52".into())
+                    }
+                    other => other,
+                };
+            }
+            return v;
+        }
         judge_semantic(case, ctx)
+    }
+    fn builtin_cases(&self) -> Vec<Case> {
+        // the known shapes of D52 are probed on every run
+        (0..4).map(|k| reevaluation_fixed(4 + k, true, false)).collect()
     }
     fn required_labels(&self) -> Vec<&'static str> {
         vec![
+            "re-evaluation=own-temporary",
             "shape=none", "shape=ident", "shape=call", "shape=fn", "shape=obj", "shape=many",
             "v-slots+none", "v-slots+ident", "v-slots+call", "v-slots+fn", "v-slots+obj", "v-slots+many",
             "value:x=vnode", "value:x=slotsobj", "value:x=fn", "value:x=arr", "value:x=str",
